@@ -24,7 +24,7 @@
 
    No proofs in this file.  Strings are byte lists; C strings are byte lists
    that are cut at the first 0 where the C code would stop there. *)
-From DV Require Import Lib.Base Gen.Tables Wire.Utf8 Wire.Names.
+From DV Require Import Lib.Base Gen.Tables Gen.ActivationTables Wire.Utf8 Wire.Names.
 Local Open Scope N_scope.
 
 (* ---------------------------------------------------------------- desktop-file.c *)
@@ -56,9 +56,8 @@ Fixpoint is_blank (s : bytes) : bool :=
               else false
   end.
 
-(* valid[c] & VALID_KEY_CHAR *)
-Definition key_char (c : N) : bool :=
-  ((48 <=? c) && (c <=? 57)) || ((65 <=? c) && (c <=? 90)) || ((97 <=? c) && (c <=? 122)) || (c =? 45).
+(* valid[c] & VALID_KEY_CHAR: the table is regenerated from bus/desktop-file.c (tools/gen/activation.py); [A-Za-z0-9-] *)
+Definition key_char (c : N) : bool := tbl tbl_desktop_key_char c.
 
 (* is_valid_section_name *)
 Definition section_char (c : N) : bool :=
@@ -164,7 +163,7 @@ Fixpoint dloop (fuel : nat) (s : bytes) (cur : option (bytes * list dline)) (don
       end
   end.
 
-Definition MAX_DESKTOP_SIZE : N := 131072.   (* _DBUS_ONE_KILOBYTE * 128 *)
+Definition MAX_DESKTOP_SIZE : N := DESKTOP_MAX_SIZE.   (* generated: _DBUS_ONE_KILOBYTE * 128 *)
 
 (* bus_desktop_file_load on the contents of an existing, readable file *)
 Definition desktop_load (content : bytes) : load_res :=
@@ -185,10 +184,10 @@ Definition get_string (d : desktop) (section key : bytes) : option bytes :=
               end
   end.
 
-Definition SECTION : bytes := [68;45;66;85;83;32;83;101;114;118;105;99;101].   (* "D-BUS Service" *)
-Definition KEY_NAME : bytes := [78;97;109;101].                                 (* "Name" *)
-Definition KEY_EXEC : bytes := [69;120;101;99].                                 (* "Exec" *)
-Definition KEY_USER : bytes := [85;115;101;114].                                (* "User" *)
+Definition SECTION : bytes := SERVICE_SECTION.   (* generated from bus/desktop-file.h: "D-BUS Service" *)
+Definition KEY_NAME : bytes := SERVICE_NAME.     (* "Name" *)
+Definition KEY_EXEC : bytes := SERVICE_EXEC.     (* "Exec" *)
+Definition KEY_USER : bytes := SERVICE_USER.     (* "User" *)
 Definition DOT_SERVICE : bytes := [46;115;101;114;118;105;99;101].              (* ".service" *)
 
 (* ---------------------------------------------------------------- dbus-shell.c *)
@@ -298,15 +297,15 @@ Record henv := mkHenv {
   h_perm_ok : bool;                (* check_permissions: the configured <user> exists, is the caller, and euid is 0 *)
   h_user_ok : bytes -> bool }.     (* switch_user succeeds for this User *)
 
-(* BUS_SPAWN_EXIT_CODE_* *)
-Definition EXIT_GENERIC : N := 1.
-Definition EXIT_NO_MEMORY : N := 2.
-Definition EXIT_SETUP_FAILED : N := 4.
-Definition EXIT_NAME_INVALID : N := 5.
-Definition EXIT_SERVICE_NOT_FOUND : N := 6.
-Definition EXIT_PERMISSIONS_INVALID : N := 7.
-Definition EXIT_FILE_INVALID : N := 8.
-Definition EXIT_INVALID_ARGS : N := 10.
+(* BUS_SPAWN_EXIT_CODE_* (generated from bus/activation-exit-codes.h) *)
+Definition EXIT_GENERIC : N := EXIT_CODE_GENERIC_FAILURE.
+Definition EXIT_NO_MEMORY : N := EXIT_CODE_NO_MEMORY.
+Definition EXIT_SETUP_FAILED : N := EXIT_CODE_SETUP_FAILED.
+Definition EXIT_NAME_INVALID : N := EXIT_CODE_NAME_INVALID.
+Definition EXIT_SERVICE_NOT_FOUND : N := EXIT_CODE_SERVICE_NOT_FOUND.
+Definition EXIT_PERMISSIONS_INVALID : N := EXIT_CODE_PERMISSIONS_INVALID.
+Definition EXIT_FILE_INVALID : N := EXIT_CODE_FILE_INVALID.
+Definition EXIT_INVALID_ARGS : N := EXIT_CODE_INVALID_ARGS.
 
 Inductive hres :=
 | HExit (code : N)                          (* the helper exits with this status without calling execv *)
